@@ -24,6 +24,10 @@ FIXES = [
     ("C17", "fix: prime factors are listed in ascending order", "prime factors (ǐ) came back unsorted for some n: 17179869183 gave [3, 131071, 43691]"),
     ("C10", "fix: Ȧ assigns into a copy", "Ȧ stored into its argument in place; every lazy duplicate changed too: ⟨1|2|3⟩ : 0 9 Ȧ left ⟨9|2|3⟩ twice (also via →x←x and £¥)"),
     ("C10", "fix: Ḟ (generator from function) no longer appends", "Ḟ appended each generated term to the caller's initial list: ⟨1|2|3⟩ : λ+; Ḟ 4Ẏ grew the untouched duplicate"),
+    ("C08", "fix: powers with a negative exponent", "3 -1 e pushed the float 0.3333333333333333 while ⟨3⟩ -1 e gave ⟨1/3⟩ (scalar and element-wise results differ); 1N E pushed the float 0.5"),
+    ("C08", "fix: øṘ (roman numeral) vectorises over lazy lists", "øṘ on a LazyList returned None (branch tested vy_type(lhs) is list)"),
+    ("C08", "fix: ∆± (copy sign) vectorises over its second argument", "∆± with a list as sign argument used the truthiness of the whole comparison: 0 ⟨⟩ ∆± gave 0 instead of ⟨⟩"),
+    ("C08", "fix: ∆f (nth Fibonacci number) vectorises", "∆f on a list raised (template sympy.fibonacci(lhs + 1)) although documented vectorise: true"),
     ("C02", "fix: the template of ¨…", "the template of ¨… had a positional argument after a keyword argument: every program containing ¨… failed to compile"),
 ]
 
